@@ -407,4 +407,24 @@ theorem c02lift_agree_single (f : Nat) (hf : f ∈ allFlags) (e : Ext) (hoff : e
   subst hg
   rw [c02lift_empty_has g hf, hoff]
 
+/-- `bitflags`: INTERMEDIATE_PREPARATIONS contains the COMPONENT_MODIFIERS bit -/
+theorem c02lift_inter_implies_mods (e : Ext) (h : e.has Gen.EXT_INTERMEDIATE_PREPARATIONS = true) :
+    e.has Gen.EXT_COMPONENT_MODIFIERS = true := by
+  unfold Ext.has at *
+  simp only [beq_iff_eq] at *
+  have h2 : Gen.EXT_COMPONENT_MODIFIERS = Gen.EXT_INTERMEDIATE_PREPARATIONS &&& Gen.EXT_COMPONENT_MODIFIERS := by decide
+  rw [h2, ← Nat.and_assoc, h]
+
+theorem c02lift_agree_mods (e : Ext) (hoff : e.has Gen.EXT_COMPONENT_MODIFIERS = false) :
+    AgreeOn [Gen.EXT_COMPONENT_MODIFIERS, Gen.EXT_INTERMEDIATE_PREPARATIONS] ⟨0⟩ e := by
+  have hi : e.has Gen.EXT_INTERMEDIATE_PREPARATIONS = false := by
+    cases h : e.has Gen.EXT_INTERMEDIATE_PREPARATIONS with
+    | false => rfl
+    | true => rw [c02lift_inter_implies_mods e h] at hoff; cases hoff
+  intro g hg
+  simp only [List.mem_cons, List.mem_nil_iff, or_false] at hg
+  rcases hg with rfl | rfl
+  · rw [hoff]; rfl
+  · rw [hi]; rfl
+
 end Cook
